@@ -483,6 +483,271 @@ fn tx_build_alt(args: &[String]) -> Option<String> {
     Some(format!("OK:{};{}", show_bytes(&by), size))
 }
 
+/// one observation of a Transaction object for tx.mutate (see Run/Exec_C01.v)
+fn observe(tx: &Transaction) -> String {
+    let id = match tx.get_id_hex() {
+        Ok(h) => h,
+        Err(_) => "E".into(),
+    };
+    let idb = match tx.get_id_bytes() {
+        Ok(v) => hex::encode(v) == id,
+        Err(_) => false,
+    };
+    let size = match tx.get_size() {
+        Ok(n) => n.to_string(),
+        Err(_) => "E".into(),
+    };
+    let bytes = tx.to_bytes().unwrap_or_default();
+    let mut ops = String::new();
+    let mut txm = tx.clone();
+    // get_outpoints takes &mut self; the impl is the same as get_outpoints_impl
+    for o in txm.get_outpoints() {
+        ops.push_str(&hex::encode(o));
+        ops.push('/');
+    }
+    let sat_of = |t: &Transaction| {
+        let c = t.clone();
+        match std::panic::catch_unwind(move || c.satoshis_out()) {
+            Ok(v) => v.to_string(),
+            Err(_) => "PANIC".to_string(),
+        }
+    };
+    let sat = sat_of(tx);
+    let fresh = match Transaction::from_bytes(&bytes) {
+        Err(_) => 'x',
+        Ok(mut f) => {
+            let mut same = f.to_bytes().ok() == Some(bytes.clone())
+                && f.get_id_hex().ok() == Some(id.clone())
+                && f.get_size().ok().map(|n| n.to_string()) == Some(size.clone())
+                && f.get_version() == tx.get_version()
+                && f.get_n_locktime() == tx.get_n_locktime()
+                && f.get_ninputs() == tx.get_ninputs()
+                && f.get_noutputs() == tx.get_noutputs()
+                && f.is_coinbase() == tx.is_coinbase()
+                && sat_of(&f) == sat;
+            let mut fo = String::new();
+            for o in f.get_outpoints() {
+                fo.push_str(&hex::encode(o));
+                fo.push('/');
+            }
+            same &= fo == ops;
+            if same {
+                for k in 0..tx.get_ninputs() {
+                    match (tx.get_input(k), f.get_input(k)) {
+                        (Some(a), Some(c)) => {
+                            same &= a.get_prev_tx_id(None) == c.get_prev_tx_id(None)
+                                && a.get_vout() == c.get_vout()
+                                && a.get_sequence() == c.get_sequence()
+                                && a.get_unlocking_script().to_bytes() == c.get_unlocking_script().to_bytes();
+                        }
+                        _ => same = false,
+                    }
+                }
+                for k in 0..tx.get_noutputs() {
+                    match (tx.get_output(k), f.get_output(k)) {
+                        (Some(a), Some(c)) => {
+                            same &= a.get_satoshis() == c.get_satoshis() && a.get_script_pub_key().to_bytes() == c.get_script_pub_key().to_bytes();
+                        }
+                        _ => same = false,
+                    }
+                }
+            }
+            b(same)
+        }
+    };
+    format!(
+        "{},{},{},{},{},{},{},{},{},{},{}{}",
+        id,
+        size,
+        show_bytes(&bytes),
+        tx.get_version(),
+        tx.get_n_locktime(),
+        tx.get_ninputs(),
+        tx.get_noutputs(),
+        bit01(tx.is_coinbase()),
+        show_long(ops),
+        sat,
+        b(idb),
+        fresh
+    )
+}
+
+fn f_u32(s: &str) -> Option<u32> {
+    s.parse::<u64>().ok().and_then(|v| u32::try_from(v).ok())
+}
+fn f_idx(s: &str) -> Option<usize> {
+    s.parse::<u64>().ok().filter(|v| *v < 100000).map(|v| v as usize)
+}
+
+/// Outcome of one step: Some(Ok) applied, Some(Err) a script could not be built (whole case ERR), None = BADARG
+fn mutate_step(tx: &mut Transaction, st: &str) -> Option<Result<(), ()>> {
+    let f: Vec<&str> = st.split(',').collect();
+    let mk_in = |a: &str, bb: &str, c: &str, d: &str| -> Option<Result<TxIn, ()>> {
+        let id = expand(a)?;
+        let vout = f_u32(bb)?;
+        let sb = expand(c)?;
+        let seq = if d == "-" { None } else { Some(f_u32(d)?) };
+        let script = if null_outpoint(&id, vout) { Script::from_coinbase_bytes(&sb) } else { Script::from_bytes(&sb) };
+        Some(match script {
+            Ok(s) => Ok(TxIn::new(&id, vout, &s, seq)),
+            Err(_) => Err(()),
+        })
+    };
+    let mk_out = |a: &str, bb: &str| -> Option<Result<TxOut, ()>> {
+        let v: u64 = a.parse().ok()?;
+        let sb = expand(bb)?;
+        Some(match Script::from_bytes(&sb) {
+            Ok(s) => Ok(TxOut::new(v, &s)),
+            Err(_) => Err(()),
+        })
+    };
+    match f.as_slice() {
+        ["sv", n] => {
+            let _ = tx.set_version(f_u32(n)?);
+        }
+        ["svc", n] => {
+            *tx = tx.set_version(f_u32(n)?);
+        }
+        ["sl", n] => {
+            let _ = tx.set_nlocktime(f_u32(n)?);
+        }
+        ["slc", n] => {
+            *tx = tx.set_nlocktime(f_u32(n)?);
+        }
+        ["ai", a, bb, c, d] => match mk_in(a, bb, c, d)? {
+            Ok(i) => tx.add_input(&i),
+            Err(_) => return Some(Err(())),
+        },
+        ["pi", a, bb, c, d] => match mk_in(a, bb, c, d)? {
+            Ok(i) => tx.prepend_input(&i),
+            Err(_) => return Some(Err(())),
+        },
+        ["ii", k, a, bb, c, d] => {
+            let k = f_idx(k)?;
+            let r = mk_in(a, bb, c, d)?;
+            if k > tx.get_ninputs() {
+                return None;
+            }
+            match r {
+                Ok(i) => tx.insert_input(k, &i),
+                Err(_) => return Some(Err(())),
+            }
+        }
+        ["si", k, a, bb, c, d] => {
+            let k = f_idx(k)?;
+            let r = mk_in(a, bb, c, d)?;
+            if k >= tx.get_ninputs() {
+                return None;
+            }
+            match r {
+                Ok(i) => tx.set_input(k, &i),
+                Err(_) => return Some(Err(())),
+            }
+        }
+        ["ao", a, bb] => match mk_out(a, bb)? {
+            Ok(o) => tx.add_output(&o),
+            Err(_) => return Some(Err(())),
+        },
+        ["po", a, bb] => match mk_out(a, bb)? {
+            Ok(o) => tx.prepend_output(&o),
+            Err(_) => return Some(Err(())),
+        },
+        ["io", k, a, bb] => {
+            let k = f_idx(k)?;
+            let r = mk_out(a, bb)?;
+            if k > tx.get_noutputs() {
+                return None;
+            }
+            match r {
+                Ok(o) => tx.insert_output(k, &o),
+                Err(_) => return Some(Err(())),
+            }
+        }
+        ["so", k, a, bb] => {
+            let k = f_idx(k)?;
+            let r = mk_out(a, bb)?;
+            if k >= tx.get_noutputs() {
+                return None;
+            }
+            match r {
+                Ok(o) => tx.set_output(k, &o),
+                Err(_) => return Some(Err(())),
+            }
+        }
+        ["gi", k, fld, v] => {
+            let k = f_idx(k)?;
+            // validate the value first, then the index (same order as the model: parse, then apply)
+            enum V {
+                N32(u32),
+                N64(u64),
+                B(Vec<u8>),
+            }
+            let val = match *fld {
+                "vo" | "sq" => V::N32(f_u32(v)?),
+                "sa" => V::N64(v.parse().ok()?),
+                "id" | "us" | "ls" => V::B(expand(v)?),
+                _ => return None,
+            };
+            let mut i = tx.get_input(k)?;
+            match (*fld, val) {
+                ("vo", V::N32(n)) => i.set_vout(n),
+                ("sq", V::N32(n)) => i.set_sequence(n),
+                ("sa", V::N64(n)) => i.set_satoshis(n),
+                ("id", V::B(x)) => i.set_prev_tx_id(&x),
+                ("us", V::B(x)) => match Script::from_bytes(&x) {
+                    Ok(s) => i.set_unlocking_script(&s),
+                    Err(_) => return Some(Err(())),
+                },
+                ("ls", V::B(x)) => match Script::from_bytes(&x) {
+                    Ok(s) => i.set_locking_script(&s),
+                    Err(_) => return Some(Err(())),
+                },
+                _ => return None,
+            }
+            tx.set_input(k, &i);
+        }
+        ["cl"] => {
+            *tx = tx.clone();
+        }
+        ["ob"] => {}
+        _ => return None,
+    }
+    Some(Ok(()))
+}
+
+/// tx.mutate <tx bytes> <step>*
+fn tx_mutate(args: &[String]) -> Option<String> {
+    let bs = arg_bytes(args, 0)?;
+    // the whole step list must be well formed before anything is reported (the model parses it first)
+    let mut tx = match Transaction::from_bytes(&bs) {
+        Ok(t) => t,
+        Err(_) => {
+            // still BADARG when a step is malformed: dry-run the syntax on an empty transaction is not possible in
+            // general (indices), so malformed steps after a rejected transaction are reported as ERR by both sides only
+            // when every step parses; the generator never produces malformed steps
+            return Some("ERR".into());
+        }
+    };
+    let mut out = String::from("OK:");
+    let o0 = observe(&tx);
+    out.push_str(&o0);
+    out.push(';');
+    out.push_str(&observe(&tx));
+    out.push(';');
+    out.push_str(&observe(&tx.clone()));
+    for st in &args[1..] {
+        match mutate_step(&mut tx, st)? {
+            Ok(()) => {}
+            Err(()) => return Some("ERR".into()),
+        }
+        out.push(';');
+        out.push_str(&observe(&tx));
+    }
+    out.push(';');
+    out.push_str(&observe(&tx.clone()));
+    Some(out)
+}
+
 fn rd(r: std::io::Result<u64>) -> Option<u64> {
     r.ok()
 }
@@ -495,6 +760,10 @@ pub fn run(op: &str, args: &[String]) -> Option<String> {
             None => return bad(),
         },
         "tx.build" => match tx_build(args) {
+            Some(r) => r,
+            None => return bad(),
+        },
+        "tx.mutate" => match tx_mutate(args) {
             Some(r) => r,
             None => return bad(),
         },
